@@ -124,6 +124,7 @@ Definition num_pow (a b : num) : ares num :=
         if sf_is_zero x && (ey <? 0) then AErr
         else if ey <? 0 then AOracle
         else if 4096 <? ey then (if Z.abs bx <=? 1 then AOracle else AErr)
+        else if (2 <=? Z.abs bx) && (1100 <? Z.log2 (Z.abs bx) * ey) then AErr      (* |bx|^ey >= 2^1100: OverflowError, without computing it *)
         else
           let r := bx ^ ey in
           if (sf_is_zero x) && (0 <? ey) then AOracle      (* sign of zero results: left to libm *)
